@@ -198,8 +198,8 @@ def tasks(tier):
     if tier != "quick":
         # (a 4-bank configuration was tried: B = 36 is still too small and the unrolling for B >= 42 does not finish
         # within 50 minutes; not claimed)
-        cfgs += [dict(odd, B=26, G=G, SEQ=SEQ, no_refresh=True, bank=1),
-                 dict(base, tRP=3, tRCD=3, tRAS=7, tRC=10, B=34, G=G, SEQ=SEQ + 1, no_refresh=True, bank=0)]
+        # (slower timings tRP=tRCD=3, tRAS=7: B up to 50 neither refuted nor proved within 30 minutes; not claimed)
+        cfgs += [dict(odd, B=26, G=G, SEQ=SEQ, no_refresh=True, bank=1)]
     for cfg in cfgs:
         out.append(dict(fn="service_contract", cfg=cfg, modes=["inductive", "response"], weight=30, timeout_ms=2400000))
     # the refresher guarantees used for the composition, for the same controller configuration (C04 obligations)
